@@ -1,29 +1,66 @@
-"""C15 — simplification keeps regular systems square and self-contained.   (work in progress: oracle part)"""
+"""C15 — simplification keeps regular systems square and self-contained.
+
+Real code: `pymoca.backends.casadi.model.Model.simplify` on the generated models of
+harness/gen/a10_simplify.py (square systems with a constructed unique solution, see C14) under
+sampled subsets of all simplification options, plus dedicated streams for the option combinations
+behind the former findings (constant expressions with replace_constant_values, delay arguments with
+replace_parameter_values, `x = time`, reduce_affine_expression with initial equations, iteration
+with parameter aliases) and for the open one (iteration with reduce_affine_expression, C15-F7).
+
+Direct oracle (independent of the Lean model): `len(states)+len(alg_states)` minus the number of
+scalar equations is the same before and after simplify; the symbols (`ca.symvar`) of the remaining
+equations, initial equations and delay arguments are all in a variable list of the simplified
+model (or `time`); all four functions (dae residual, initial residual, variable metadata, delay
+arguments) that could be built before can be built after; simplify does not raise on these regular
+systems (except by design: eliminable_variable_expression without expand_mx).
+
+Correspondence: the pass-by-pass tie of C14 (same model `PymocaVerif.Model.Simplify`, driver
+`drv_c15`); for this property the compared observables of every pass are the variable lists, the
+number of unknowns and equations after the pass and the list of dangling symbols
+(`Model.dangling`, proved equivalent to `Closed` in Props/C15.lean).
+"""
 from harness import corpus
 from harness.gen import a10_simplify as S
 
-DRIVERS = ["drv_c15"]
-RULE = "tbd"
-TRUSTED = []
-ASSUMPTIONS = []
 PROP = "C15"
+DRIVERS = ["drv_c15"]
+RULE = ("one case = one generated square model with unique solution and one sampled option set (see C14); extra streams: constexpr, "
+        "delay, timealias, affineinit, iterparam (former findings, now regression inputs), iteraffine (open finding C15-F7); "
+        "non-trivial = the real simplify changed a variable list or the number of equations; distinct = distinct (model text, option set)")
+TRUSTED = ["CasADi: `ca.symvar`, construction of `ca.Function` (fails exactly on free symbols), `ca.substitute`",
+           "the option-prefix method: `_simplify_once` with the later options switched off stops exactly before the pass under test"]
+ASSUMPTIONS = ["scalar models (vector expansion is property C18); variable names are distinct (keys of Python dicts)",
+               "an exception raised by simplify on a regular system counts as 'functions cannot be built' unless it is the documented "
+               "`eliminable_variable_expression requires expand_mx`",
+               "reduce_affine_expression is covered by the direct oracle only"]
 
 
 def run(ctx):
     drv = ctx.driver(DRIVERS[0])
     for c in corpus.load(PROP):
         ctx.count("corpus")
-        S.check_case(ctx, PROP, c["case"] if "case" in c else c)
+        S.check_case(ctx, PROP, c["case"] if "case" in c else c, drv, S.tie_case)
     for case in S.gen_cases(ctx, PROP):
         if ctx.time_left() < 0:
             ctx.notes.append("stopped by the time budget after %d cases" % ctx.evaluations)
             break
         S.check_case(ctx, PROP, case, drv, S.tie_case)
+    ctx.extra["exhaustive"] = False
 
 
 def replay(ctx, payload):
     S.check_case(ctx, PROP, payload["case"], ctx.driver(DRIVERS[0]), S.tie_case)
 
 
-MANIFEST = dict(level_text="", level_note="", technique="")
+MANIFEST = dict(
+    level_text="Lean 4 theorems about the executable model of Model._simplify_once: every pass other than the alias detection "
+               "removes equations and unknowns in pairs and maps a self-contained model to a self-contained one (for all option "
+               "sets, unbounded models); for the alias detection both are proved from the counting/class property of the alias "
+               "relation; the executable `dangling` check is proved equivalent to self-containedness. Tied to the real code on "
+               "every run by the pass-by-pass correspondence on the serialised real MX (counts, variable lists, dangling symbols) "
+               "and by a direct oracle (balance, symvar containment, construction of all four CasADi functions).",
+    level_note="Trusted: Lean kernel + standard axioms; the harness; CasADi's Function construction. The alias-detection step of "
+               "balance/closedness is conditional on the union-find invariant of AliasRelation (property C17's subject).",
+    technique="Lean 4 proof (per-pass counting and closure lemmas) + pass-by-pass model/implementation correspondence + direct oracle",
+)
 READY = False
